@@ -12,7 +12,7 @@ D8 duplicates only as gated probes, one in STALL_PROBE_ONE_IN_N;
 D9 send-failure discipline: every caller of send_connection_batch resets the link on Err (optimistic registration is only sound then).
 """
 from ..absint import AbsInt, Bool, Entry, Num
-from ..ctx import is_awaited_result_of, CONN, is_call, is_field, is_iter_next, result_arms, sname
+from ..ctx import full_slice_element, is_awaited_result_of, CONN, is_call, is_field, is_iter_next, result_arms, sname
 from ..expr import show, walk
 from ..pathcond import PathA, calls_to, field_stores
 from .route import FWD, HSP, routing_sources
@@ -385,8 +385,7 @@ def d7_flush_points(ctx):
                     ok = pa2.entails(skip, pa2.bdd.OR(idle, io_none))
                     detail = "a link is passed over under %s" % pa2.show(skip, 4)
             ctx.chk.ob("D7", "the timer flush passes a link over only if it has nothing queued (or no I/O entry)", ok, detail, key="D7:timer-flush-skip")
-            its = [x for x in walk(link) if is_call(x, name_contains="<impl [T]>::iter_mut")]
-            ctx.chk.ob("D7", "the timer flush visits every link", bool(its) and its[0][2] == (up(fl, "connections"),), "", key="D7:timer-flush-all-links")
+            ctx.chk.ob("D7", "the timer flush visits every link (plain iteration)", full_slice_element(link, up(fl, "connections")) is not None, show(link, fl.names)[:160], key="D7:timer-flush-all-links")
             # the early exit is taken only when no link has work
             anyc = [(b_, t_) for (b_, t_) in fl.calls() if "Iterator>::any" in t_["f"].get("path", "")]
             okc = False
